@@ -12,7 +12,7 @@
    (F) the FAITHFUL model of what the code does, branch by branch, with every float operation
        replaced by the exact one: longitudes are compared as angles of (x,y) in [0,2pi) by exact sign
        tests, latitudes through sin(lat) = z/|v| by sign-aware squared comparison, the pole snap
-       |z| > 1 - ERROR_TOLERANCE, the plane test |n.p| <= ERROR_TOLERANCE and the parallel test <= MACHINE_EPSILON use the exact values of
+       |z| > 1 - ERROR_TOLERANCE, the plane test |n.p|/|n| <= ERROR_TOLERANCE and the parallel test <= MACHINE_EPSILON use the exact values of
        the two constants (Gen/C14_consts.v, regenerated from constants.py).  Tests of the form
        isclose(lon1, lon2) are idealised to equality of the exact angles.
    Definitions only. *)
@@ -137,10 +137,13 @@ Definition c14_decide_pole (l1 l2 : c14_lat) : c14_lat :=
   then (if c14_lat_pos l1 then c14_NP else c14_SP)
   else (if c14_lat_pos l2 then c14_NP else c14_SP).
 
-(* allclose(dot(cross(a,b), p), 0, rtol=ERROR_TOLERANCE, atol=ERROR_TOLERANCE) for the unit vectors a/|a|, b/|b|, p/|p| *)
+(* cross_product = cross(a,b) / |cross(a,b)|;  allclose(dot(cross_product, p), 0, rtol=ERROR_TOLERANCE, atol=ERROR_TOLERANCE)
+   for the unit point p/|p| (since fix 5fda323f): the sine of the angular distance of p from the great circle is at most
+   ERROR_TOLERANCE.  For a x b = 0 the float normal is nan and the test fails. *)
 Definition c14_plane_ok (a b p : c14_vec) : bool :=
   let t := c14_triple a b p in
-  t * t * (c14_TOL_den * c14_TOL_den) <=? c14_TOL_num * c14_TOL_num * (c14_nsq a * c14_nsq b * c14_nsq p).
+  negb (c14_is0 (c14_cross a b)) &&
+  (t * t * (c14_TOL_den * c14_TOL_den) <=? c14_TOL_num * c14_TOL_num * (c14_nsq (c14_cross a b) * c14_nsq p)).
 
 (* the arc is exactly 180 degrees: ValueError *)
 Definition c14_antipodal (a b : c14_vec) : bool := c14_is0 (c14_cross a b) && (c14_dot a b <? 0).
